@@ -254,6 +254,8 @@ def scalar_op(fr, name, x, y):
             for _ in range(ys):
                 out = O.mul(out, x)
             return out
+        if O.any_sym(x, y):
+            return LIB['pow'](fr, x, y)
         if not O.any_sym(x, y):
             return x ** y
     raise Unsupported("tensor op %s" % name)
@@ -2433,7 +2435,38 @@ def _pow(fr, base, e):
         if z3.is_int(ez):
             ez = z3.ToReal(ez)
         return EXP2(ez)
+    bz, ez = O.to_z3(base) if O.is_sym(base) else base, O.to_z3(e) if O.is_sym(e) else e
+    if (isinstance(bz, int) or (isinstance(bz, z3.ExprRef) and z3.is_int(bz))) and (isinstance(ez, int) or (isinstance(ez, z3.ExprRef) and z3.is_int(ez))):
+        # integer power with a non-negative integer exponent: the uninterpreted IPOW (IPOW(b, 0) = 1,
+        # IPOW(b, t+1) = b * IPOW(b, t) are its defining equations; contracts that need them name instances)
+        # (unspecified for a negative exponent: nothing is known about IPOW there, so nothing can be proved from it)
+        return IPOW(bz if isinstance(bz, z3.ExprRef) else z3.IntVal(bz), ez if isinstance(ez, z3.ExprRef) else z3.IntVal(ez))
     raise Unsupported("symbolic power")
+
+
+IPOW = z3.Function('IPOW', z3.IntSort(), z3.IntSort(), z3.IntSort())
+
+
+@lib('torch.nn.functional.conv1d')
+def _conv1d(fr, x, w, bias=None, stride=1, padding=0, dilation=1, groups=1):
+    """conv1d without bias, stride 1, no padding / dilation / groups (cross-correlation, as torch defines it):
+    out[n, o, l] = sum_c sum_t x[n, c, l + t] * w[o, c, t], shape (N, O, L - K + 1)"""
+    ctx = fr.ctx
+    if bias is not None or any(O.simp(v) != d for v, d in ((stride, 1), (padding, 0), (dilation, 1), (groups, 1))):
+        raise Unsupported("conv1d with bias / stride / padding / dilation / groups")
+    x, w = as_tn(fr, x), as_tn(fr, w)
+    if x.rank != 3 or w.rank != 3:
+        raise Unsupported("conv1d on tensors of rank %d, %d" % (x.rank, w.rank))
+    N, C, Lx = x.shape
+    Oc, Cw, K = w.shape
+    require_eq(ctx, C, Cw, 'RuntimeError')
+    ctx.may_raise(Lx < K, 'RuntimeError')
+    sx, sw = x.snapshot(), w.snapshot()
+    kind = 'real' if 'real' in (x.kind, w.kind) else 'int'
+
+    def content(n, o, l):
+        return Sum(0, C, lambda c: Sum(0, K, lambda t: O.mul(sx(n, c, l + t), sw(o, c, t)) if kind == 'int' else sx(n, c, l + t) * sw(o, c, t), kind), kind)
+    return Tn.fresh([N, Oc, Lx - K + 1], content, kind, lib=x.lib)
 
 
 @method('CatList.append')
